@@ -61,7 +61,7 @@ def tokens_notation(tokens):
 ''')
 specfn('''
 def notation_owned(s):
-    return (owner(s) == NOTATION and bonds_notation(s.repeat_bonds) and bonds_notation(s.end_bonds) and tokens_notation(s.repeat_tokens) and tokens_notation(s.end_tokens)
+    return (owner(s) == NOTATION and bonds_notation(s.repeat_bonds) and bonds_notation(s.end_bonds) and bonds_notation(s.bond_descriptors) and tokens_notation(s.repeat_tokens) and tokens_notation(s.end_tokens)
             and owner(s.repeat_bond_token_idx) == NOTATION and owner(s.end_bond_token_idx) == NOTATION
             and owner(s.left_terminal) == NOTATION and owner(s.right_terminal) == NOTATION)
 ''')
@@ -183,8 +183,14 @@ contract("bond.BondDescriptor.generate_string", trusted=True,
                      "terminal descriptor (class invariant of BondDescriptor: an empty symbol comes with no id and no weights), and two descriptors print alike without "
                      "extensions exactly if symbol and id agree. The bounded C01 / C02 drivers check printing and parsing of descriptors",
          props=["C01"], params=dict(self=Ref("BondDescriptor"), extension=BOOL), returns=STR,
-         ensures=["(result == '[]') == (self.descriptor == '')"],
+         ensures=["(result == '[]') == (self.descriptor == '')", "implies(not extension, result == plain_text(self))"],
          modifies=[], allocates=False)
+ufunc("plain_text", [Ref("BondDescriptor")], STR)         # the extension-free text of a descriptor, as a function of the object
+# axiom on printing (trusted, bounded C01 driver): two descriptors print alike without extensions exactly if symbol and id agree
+specfn('''
+def plain_text_axiom(a, b):
+    return iff(plain_text(a) == plain_text(b), a.descriptor == b.descriptor and a.descriptor_id == b.descriptor_id)
+''')
 ufunc("compat_text_of", [Ref("BondDescriptor")], STR)
 contract("bond._create_compatible_bond_text", trusted=True,
          why_trusted="string formatting; assumed together with BondDescriptor.__init__: parsing this text gives a descriptor with the SAME symbol and id as `bond`, single bond "
@@ -267,6 +273,10 @@ _C07 = {
     "forall(lambda q: implies(old(units) < q and q < units, mass_after[q] - old(mass(my_mol._mol)) <= last_draw and open_after[q] > 0))": "continues-while-not-exceeding",
     "mass_after[units] - old(mass(my_mol._mol)) > last_draw or open_after[units] == 0": "stops-at-first-exceeding-or-no-open-descriptor",
     "implies(open_after[units] != 0, fresh(result))": "capping-on-a-copy",
+    "molgen_wf(result) and weights_ok(result.bond_descriptors)": "returns-a-well-formed-molecule",
+    "implies(self.right_terminal.descriptor == '', len(result.bond_descriptors) == 0)": "closed-right-end-leaves-no-open-descriptor",
+    "implies(self.right_terminal.descriptor != '' and open_after[units] != 0, len(result.bond_descriptors) == 1)": "open-right-end-leaves-exactly-the-reserved-descriptor",
+    "implies(open_after[units] == 0, len(result.bond_descriptors) == 0)": "premature-end-leaves-no-open-descriptor",
     "mass(entry(my_mol)._mol) == mass_after[units]": "growing-molecule-not-capped",
 }
 contract("stochastic.Stochastic.generate.generate_repeat_units_and_finalize",
@@ -276,7 +286,9 @@ contract("stochastic.Stochastic.generate.generate_repeat_units_and_finalize",
          returns=Ref("MolGen"),
          requires=["molgen_wf(my_mol)", "not is_none(self.distribution)", "dist_inv(self.distribution)", "weights_ok(my_mol.bond_descriptors)", "end_groups_are_leaves(self)"], assumes=["notation_owned(self)"],
          ensures=list(_C07), labels=_C07,
-         clause_props={"target-drawn-from-the-declared-law-with-the-declared-parameters": ["C09", "C07"], "cover": ["C07", "C09"]},
+         clause_props={"target-drawn-from-the-declared-law-with-the-declared-parameters": ["C09", "C07"], "cover": ["C07", "C09"],
+                       "returns-a-well-formed-molecule": ["C06", "C07"], "closed-right-end-leaves-no-open-descriptor": ["C06"],
+                       "open-right-end-leaves-exactly-the-reserved-descriptor": ["C06"], "premature-end-leaves-no-open-descriptor": ["C06"]},
          raises_may={"RuntimeError": "True", "ValueError": "True", "NotImplementedError": "True", "Exception": "True"},
          modifies=["MolGen._mol@my_mol", "MolGen.graph@my_mol", "list@my_mol.bond_descriptors",
                    "ghost.units", "ghost.mass_after", "ghost.open_after", "ghost.bonds", "ghost.bond_a", "ghost.bond_b", "ghost.bond_t",
@@ -295,3 +307,66 @@ contract("stochastic.Stochastic.generate.generate_repeat_units_and_finalize",
                   "units >= old(units)",
                   "forall(lambda q: implies(old(units) < q and q <= units, mass_after[q] - starting_mol_weight <= target_mol_weight and open_after[q] > 0))",
                   "implies(units > old(units), mass_after[units] == mass(my_mol._mol))"])})
+
+
+# ---- closure: where generation of this object starts ----------------------------------------------------------------------------------------
+_G0 = "end_bond_idx = choose_compatible_weight(self.end_bonds, None, rng)"
+_T_G0 = site("start-end-group", pick_site("self.end_bonds", "None", "end_bond_idx"))
+_GS = {
+    "molgen_wf(result) and weights_ok(result.bond_descriptors) and len(result.bond_descriptors) == 1": "starts-with-exactly-one-open-descriptor",
+    "implies(is_none(prefix), fresh(result) and fresh(result.bond_descriptors) and fresh(result.graph) and self.left_terminal.descriptor == '' and result._mol == smiles_mol(frag_text(d2_token)) "
+    "and d2_token is self.end_tokens[self.end_bond_token_idx[last_cand[last_pick]]])": "without-prefix-starts-from-a-picked-end-group",
+    "implies(not is_none(prefix), result is prefix and result.bond_descriptors[0].weight == self.left_terminal.weight "
+    "and result.bond_descriptors[0].transitions is self.left_terminal.transitions)": "prefix-descriptor-takes-the-left-terminals-weight-and-list",
+    "implies(not is_none(prefix), old(len(prefix.bond_descriptors)) == 1 and old(prefix.bond_descriptors[0].descriptor) == self.left_terminal.descriptor "
+    "and old(prefix.bond_descriptors[0].descriptor_id) == self.left_terminal.descriptor_id)": "prefix-open-descriptor-equals-the-left-terminal",
+    "units == old(units) and draws == old(draws) and bonds == old(bonds)": "no-unit-no-draw-no-bond-at-the-start",
+}
+contract("stochastic.Stochastic.generate.get_start",
+         props=["C06", "C08", "C15"],
+         params={}, captured=dict(self=Ref("Stochastic"), rng=GENERATOR, prefix=NRef("MolGen")), returns=Ref("MolGen"),
+         requires=["implies(not is_none(prefix), molgen_wf(prefix))", "self.left_terminal.weight >= 0"],
+         assumes=list(_STOCH_REQ) + ["implies(not is_none(prefix) and len(prefix.bond_descriptors) > 0, plain_text_axiom(prefix.bond_descriptors[0], self.left_terminal))"],
+         ensures=list(_GS), labels={**_GS, **_STOCH_REQ, **_T_G0},
+         raises_may={"RuntimeError": "True", "ValueError": "True", "IndexError": "True"},
+         assert_at={_G0: list(_T_G0)}, ghost_before={_G0: ["at_site_choices = choices"]},
+         ghost_at={"start_token = self.end_tokens[self.end_bond_token_idx[end_bond_idx]]": ["d2_token = start_token"]},
+         clause_props={**{l: ["C08"] for l in _T_G0.values()}, "prefix-descriptor-takes-the-left-terminals-weight-and-list": ["C08"],
+                       "prefix-open-descriptor-equals-the-left-terminal": ["C15", "C06"], "without-prefix-starts-from-a-picked-end-group": ["C06", "C15"],
+                       "starts-with-exactly-one-open-descriptor": ["C06"], "no-unit-no-draw-no-bond-at-the-start": ["C07"], "cover": ["C06", "C08", "C15"], "frame": ["C10"]},
+         modifies=["BondDescriptor.weight@prefix.bond_descriptors[0]", "BondDescriptor.transitions@prefix.bond_descriptors[0]",
+                   "ghost.at_site_choices", "ghost.d2_token",
+                   "ghost.choices", "ghost.last_p", "ghost.last_n", "ghost.last_pick", "ghost.last_rng", "ghost.last_cand", "ghost.last_norm"],
+         writes_owner="GEN")
+
+# ---- Stochastic.generate: guard, start, growth, capping ------------------------------------------------------------------------------------------
+_SG = {
+    "old(stoch_gen_ok(self))": "refuses-what-is-not-generable",
+    "molgen_wf(result) and weights_ok(result.bond_descriptors)": "returns-a-well-formed-molecule",
+    "implies(self.right_terminal.descriptor == '', len(result.bond_descriptors) == 0)": "closed-right-end-leaves-no-open-descriptor",
+    "implies(self.right_terminal.descriptor != '' and open_after[units] != 0, len(result.bond_descriptors) == 1)": "open-right-end-leaves-exactly-one-open-descriptor",
+    "len(result.bond_descriptors) <= 1": "at-most-one-open-descriptor-is-handed-on",
+    "units >= old(units) + 1": "at-least-one-repeat-unit",
+    "draws == old(draws) + 1 and last_draw_rng == rng": "one-target-mass-drawn-with-the-supplied-generator",
+    "last_draw_family == doc_family(self.distribution) and last_draw_p1 == doc_p1(self.distribution) and last_draw_p2 == doc_p2(self.distribution)": "target-drawn-from-the-declared-law",
+    "implies(is_none(prefix), self.left_terminal.descriptor == '')": "a-non-empty-left-terminal-needs-a-prefix",
+    "implies(not is_none(prefix), old(len(prefix.bond_descriptors)) == 1 and old(prefix.bond_descriptors[0].descriptor) == self.left_terminal.descriptor "
+    "and old(prefix.bond_descriptors[0].descriptor_id) == self.left_terminal.descriptor_id)": "prefix-open-descriptor-equals-the-left-terminal",
+}
+_ALL_GHOSTS = ["ghost.units", "ghost.mass_after", "ghost.open_after", "ghost.bonds", "ghost.bond_a", "ghost.bond_b", "ghost.bond_t", "ghost.at_site_choices", "ghost.d2_token",
+               "ghost.draws", "ghost.last_draw", "ghost.last_draw_rng", "ghost.last_draw_family", "ghost.last_draw_p1", "ghost.last_draw_p2",
+               "ghost.choices", "ghost.last_p", "ghost.last_n", "ghost.last_pick", "ghost.last_rng", "ghost.last_cand", "ghost.last_norm"]
+contract("stochastic.Stochastic.generate",
+         props=["C06", "C07", "C09", "C15"],
+         params=dict(self=Ref("Stochastic"), prefix=NRef("MolGen"), rng=GENERATOR), defaults={"prefix": None, "rng": None}, returns=Ref("MolGen"),
+         requires=["implies(not is_none(prefix), molgen_wf(prefix))", "end_groups_are_leaves(self)"],
+         assumes=["notation_owned(self)", "implies(not is_none(self.distribution), dist_inv(self.distribution))"],
+         ensures=list(_SG), labels={**_SG, "notation_owned(self)": "inv-notation-owned", "implies(not is_none(self.distribution), dist_inv(self.distribution))": "inv-distribution-object"},
+         raises_may={"RuntimeError": "True", "ValueError": "True", "IndexError": "True", "TypeError": "True", "NotImplementedError": "True", "Exception": "True"},
+         clause_props={"refuses-what-is-not-generable": ["C15"], "a-non-empty-left-terminal-needs-a-prefix": ["C15", "C06"], "prefix-open-descriptor-equals-the-left-terminal": ["C15", "C06"],
+                       "at-most-one-open-descriptor-is-handed-on": ["C06"], "at-least-one-repeat-unit": ["C06", "C07"],
+                       "one-target-mass-drawn-with-the-supplied-generator": ["C07", "C09", "C10"], "target-drawn-from-the-declared-law": ["C09"],
+                       "closed-right-end-leaves-no-open-descriptor": ["C06"], "open-right-end-leaves-exactly-one-open-descriptor": ["C06"],
+                       "returns-a-well-formed-molecule": ["C06", "C04"], "cover": ["C06", "C07", "C09", "C15"], "frame": ["C10"]},
+         modifies=["BondDescriptor.weight@prefix.bond_descriptors[0]", "BondDescriptor.transitions@prefix.bond_descriptors[0]",
+                   "MolGen._mol@prefix", "MolGen.graph@prefix", "list@prefix.bond_descriptors"] + _ALL_GHOSTS)
